@@ -196,13 +196,82 @@ func c18Apply(cs *c18Case) (*pongo2.Value, string, error) {
 	if (ferr == nil) != (terr == nil) {
 		return nil, "", fmt.Errorf("ApplyFilter err=%v but template err=%v", ferr, terr)
 	}
+	if ferr == nil && v.String() != tout {
+		return nil, "", fmt.Errorf("ApplyFilter result prints %q, template route prints %q", v.String(), tout)
+	}
+	// third route: input and parameter written into the template as literals
+	if lit, ok := c18Literal(in); ok {
+		lsrc := "{% autoescape off %}{{ " + lit + "|" + cs.Filter
+		plit, pok := "", true
+		if cs.HasParam {
+			plit, pok = c18Literal(pv)
+			lsrc += ":" + plit
+		}
+		lsrc += " }}{% endautoescape %}"
+		if pok {
+			ltpl, lerr := c18Set.FromString(lsrc)
+			if lerr != nil {
+				if ferr == nil {
+					return nil, "", fmt.Errorf("compile %q: %v", lsrc, lerr)
+				}
+			} else {
+				lout, lxerr := ltpl.Execute(pongo2.Context{})
+				if (ferr == nil) != (lxerr == nil) {
+					return nil, "", fmt.Errorf("ApplyFilter err=%v but %s err=%v", ferr, lsrc, lxerr)
+				}
+				if ferr == nil && lout != tout {
+					return nil, "", fmt.Errorf("%s prints %q, the same values taken from the context print %q", lsrc, lout, tout)
+				}
+			}
+		}
+		if f, isF := in.(float64); isF {
+			// a number written in the template is the number handed in from outside, to the last bit
+			ftpl, ferr2 := c18Set.FromString(`{{ ` + lit + `|stringformat:"%.17g" }}`)
+			if ferr2 != nil {
+				return nil, "", fmt.Errorf("compile literal %s: %v", lit, ferr2)
+			}
+			fout, fx := ftpl.Execute(pongo2.Context{})
+			if want := fmt.Sprintf("%.17g", f); fx != nil || fout != want {
+				return nil, "", fmt.Errorf(`{{ %s|stringformat:"%%.17g" }} prints %q (err %v), the float64 nearest to the literal prints %q`, lit, fout, fx, want)
+			}
+		}
+	}
 	if ferr != nil {
 		return nil, "", errFilter{ferr}
 	}
-	if v.String() != tout {
-		return nil, "", fmt.Errorf("ApplyFilter result prints %q, template route prints %q", v.String(), tout)
-	}
 	return v, tout, nil
+}
+
+// c18Literal writes a plain value as a template literal where there is one (non-negative int,
+// non-negative decimal float, string without quotes / backslashes / delimiters / control characters)
+func c18Literal(x any) (string, bool) {
+	switch t := x.(type) {
+	case int:
+		if t >= 0 {
+			return strconv.Itoa(t), true
+		}
+	case float64:
+		if t >= 0 && t < 1e15 {
+			lit := strconv.FormatFloat(t, 'f', -1, 64)
+			if !strings.Contains(lit, ".") {
+				lit += ".0"
+			}
+			if back, err := strconv.ParseFloat(lit, 64); err == nil && back == t && len(lit) <= 22 {
+				return lit, true
+			}
+		}
+	case string:
+		if !utf8.ValidString(t) {
+			return "", false
+		}
+		for _, r := range t {
+			if r < ' ' || r == 0x7f || strings.ContainsRune("\"\\{}%#", r) {
+				return "", false
+			}
+		}
+		return `"` + t + `"`, true
+	}
+	return "", false
 }
 
 type errFilter struct{ err error }
@@ -687,16 +756,35 @@ func checkC18(c any, r *Rec) error {
 		if e := noErr(); e != nil {
 			return e
 		}
-		digits := strconv.FormatInt(in.Int(), 10)
+		// a whole number (given as an integer of any size or as its decimal text): the digit at
+		// the position counted from the right; everything else - positions outside the number
+		// (fixture; the sign is not a digit), input that is no whole number - is handed back as it is
+		text, ok := refPrintScalar(in)
+		if !ok {
+			return skipf("not a scalar")
+		}
+		digits := strings.TrimPrefix(text, "-")
+		whole := digits != "" && (in.IsIntKind() || in.K == "str")
+		for _, ch := range digits {
+			if ch < '0' || ch > '9' {
+				whole = false
+			}
+		}
+		if whole && in.K == "str" && len(digits) > 1 && digits[0] == '0' {
+			return skipf("numeric text with leading zeros: counted as written or as a number - not fixed")
+		}
+		if in.IsFloatKind() {
+			return skipf("a float is no whole number; truncating it first (Django) or handing it back are both admitted")
+		}
 		i := int(p.Int())
-		want := digits
-		if i >= 1 && i <= len(digits) {
+		want := text
+		if whole && i >= 1 && i <= len(digits) {
 			want = string(digits[len(digits)-i])
 		}
 		if out != want {
 			return fail("want %q", want)
 		}
-		boundary = i <= 1 || i >= len(digits)
+		boundary = i <= 1 || i >= len(digits) || !whole || text != digits
 	case "floatformat":
 		if e := noErr(); e != nil {
 			return e
@@ -1058,8 +1146,12 @@ func genC18(t *rapid.T) *c18Case {
 			cs.Param = vF64(float64(drawInt(t, 1, 9, "df")) + pick(t, "dfrac", []float64{0.5, 0.0, 0.75}))
 		}
 	case "get_digit":
-		cs.In = vInt(pick(t, "n", []int{0, 7, 10, 123, 9876543210, 55, 1000000, 42}))
-		cs.Param = vInt(drawInt(t, -2, 12, "pos"))
+		cs.In = vInt(pick(t, "n", []int{0, 7, 10, 123, 9876543210, 55, 1000000, 42, -1, -1193, -50, -9876543210}))
+		if drawInt(t, 0, 3, "text") == 0 {
+			// numbers too big for an int (as their decimal text), and text that is no number
+			cs.In = vStr(pick(t, "ntext", []string{"98765432109876543210987", "-12345678901234567890", "7", "120", "abc", "12a", "", "-", "1 2", "٣٤", "x9"}))
+		}
+		cs.Param = vInt(drawInt(t, -2, 25, "pos"))
 	case "floatformat":
 		ip := drawInt(t, 0, 1234, "ip")
 		nd := drawInt(t, 0, 5, "nd")
@@ -1068,7 +1160,7 @@ func genC18(t *rapid.T) *c18Case {
 			dec += "."
 			for i := 0; i < nd; i++ {
 				// binary-exact tails are not required: the tie rule excludes the ambiguous digit
-				dec += strconv.Itoa(pick(t, "d", []int{0, 1, 2, 3, 4, 6, 7, 8, 9, 0, 9}))
+				dec += strconv.Itoa(pick(t, "d", []int{0, 1, 2, 3, 4, 5, 6, 7, 8, 9, 0, 9, 5}))
 			}
 		}
 		if drawInt(t, 0, 9, "huge") == 0 {
@@ -1222,7 +1314,7 @@ func TestC18Enum(t *testing.T) {
 			}
 		}
 		// digit positions
-		for _, n := range []int{0, 5, 10, 123, 9876543210, 1000000} {
+		for _, n := range []int{0, 5, 10, 123, 9876543210, 1000000, -1, -7, -10, -1193, -9876543210} {
 			for pos := -2; pos <= 12; pos++ {
 				if !yield(&c18Case{Filter: "get_digit", In: vInt(n), Param: vInt(pos), HasParam: true}) {
 					return
